@@ -58,10 +58,11 @@ class Cleanup:
 
     @staticmethod
     def safe_full_cleaning(source: Source) -> Source:
-        """Clean the source, unless it cannot be tokenized: the parser will then report the error."""
+        """Clean the source, unless it is not a valid program: the parser will then report the error."""
         try:
+            ast.parse(source)  # cleaning must not repair an invalid program (tabs, commented lines...)
             return Cleanup.full_cleaning(source)
-        except Exception:  # TokenError, IndentationError, TabError... whatever the tokenizer says,
+        except Exception:  # SyntaxError, TokenError, IndentationError, TabError... whatever is said,
             return source  # let the parser speak
 
     @staticmethod
